@@ -126,3 +126,851 @@ recv_version.cvc5_first = True             # ... and cvc5 settles them in millis
 recv_version.model_timeout_ms = 2500       # cross-check witness search budget per path
 recv_version.lazy_byte_ranges = True
 recv_version.confirm_retries = 2           # counter-model search for a refuted obligation: 3 seeds
+recv_version.confirm_limit = 2             # ... until two failing inputs were replayed on the real code
+
+
+# ===================================================================== (b) _process_kexinit
+# RFC 4253 7.1: KEXINIT = byte 20 || cookie[16] || 10 name-lists (kex, host key, enc c->s, enc s->c, mac c->s,
+# mac s->c, comp c->s, comp s->c, lang c->s, lang s->c) || boolean first_kex_packet_follows || uint32 0.
+# The fields below are parsed FROM THE PAYLOAD BY THE SPEC (not taken from the code's locals); the contract says
+# that the payload is recorded verbatim as I_C / I_S and that every negotiated algorithm is the first entry of the
+# client's list for that direction which the server's list for that same direction also contains.
+from pyvc.builtins_model import unbe
+from .common import PACKET_CLASSES, PACKET_INLINE, PACKET_TRUTHY
+
+_split_b = z3.Function('split_b', BytesS, BytesS, z3.SeqSort(BytesS))
+_COMMA = z3.Unit(z3.IntVal(44))
+_needs_mac = z3.Function('encryption_needs_mac', BytesS, BoolS)
+F_KEX, F_HOSTKEY, F_ENC_CS, F_ENC_SC, F_MAC_CS, F_MAC_SC, F_CMP_CS, F_CMP_SC = range(8)
+
+
+def namelist_z(s):
+    """RFC 4251 5: a name-list is a comma-separated list of names; the empty string is the empty list"""
+    return z3.If(z3.Length(s) > 0, _split_b(s, _COMMA), z3.Empty(z3.SeqSort(BytesS)))
+
+
+def kexinit_namelists(payload):
+    """the ten name-list fields of a KEXINIT payload, located by the RFC layout"""
+    off = z3.IntVal(17)
+    out = []
+    for _k in range(10):
+        ln = unbe(z3.Extract(payload, off, 4))
+        out.append(namelist_z(z3.Extract(payload, off + 4, ln)))
+        off = off + 4 + ln
+    return out
+
+
+KI_CONN = {
+    '_is_client': 'bool', '_kex': 'opt[obj:Kex]', '_client_kexinit': 'bytes', '_server_kexinit': 'bytes',
+    '_session_id': 'bytes', '_can_send_ext_info': 'bool', '_strict_kex': 'bool', '_kexinit_sent': 'bool',
+    '_ignore_first_kex': 'bool', '_recv_encryption': 'opt[obj:Encryption]', '_recv_seq': 'int',
+    '_gss': 'opt[obj:GSS]', '_gss_kex': 'bool', '_kex_algs': 'seq[bytes]', '_server_host_key_algs': 'seq[bytes]',
+    '_enc_algs': 'seq[bytes]', '_mac_algs': 'seq[bytes]', '_cmp_algs': 'seq[bytes]',
+    '_enc_alg_cs': 'bytes', '_enc_alg_sc': 'bytes', '_mac_alg_cs': 'bytes', '_mac_alg_sc': 'bytes',
+    '_cmp_alg_cs': 'bytes', '_cmp_alg_sc': 'bytes',
+}
+KI_CLASSES = dict(PACKET_CLASSES, SSHConnection=KI_CONN, Kex={'algorithm': 'bytes'}, Encryption={},
+                  GSS={'mechs': 'seq[bytes]'})
+
+# callee view of _choose_alg used at the call sites in _process_kexinit.  Its result is not constrained beyond two
+# quantifier-free consequences of the contract proved above (both lists are non-empty on a normal return; lemma
+# `choose-alg-callee-view` in extra_checks): the negotiation postconditions below say WHICH call, with WHICH
+# arguments, produced each recorded algorithm, and the contract proved above then says what that call returns.
+choose_alg_bytes = Spec(
+    'C03x', 'connection', 'SSHConnection._choose_alg', self_class='SSHConnection',
+    params=dict(alg_type='str', local_algs='seq[bytes]', remote_algs='seq[bytes]'),
+    ensures=[('lists-non-empty', lambda c: z3.And(z3.Length(c.arg('local_algs')) > 0,
+                                                  z3.Length(c.arg('remote_algs')) > 0))],
+    raises={'KeyExchangeFailed': True, 'UnicodeDecodeError': True}, returns='bytes')
+Spec.registry.remove(choose_alg_bytes)
+
+
+def extra_checks(tier, seed):
+    """lemma: the callee view is implied by the contract proved for _choose_alg (either role)"""
+    S = z3.SeqSort(BytesS)
+    a, b, r = z3.Const('lemma_a', S), z3.Const('lemma_b', S), z3.Const('lemma_r', BytesS)
+    sol = z3.Solver()
+    sol.set('timeout', 20000)
+    sol.add(first_common_z(a, b, r))
+    sol.add(z3.Not(z3.And(z3.Length(a) > 0, z3.Length(b) > 0)))
+    res = sol.check()
+    return {'lemmas': [{'name': 'C03.lemma#choose-alg-callee-view(first_common => both lists non-empty)',
+                        'verdict': 'proved' if res == z3.unsat else ('refuted' if res == z3.sat else 'unknown'),
+                        'reason': str(res)}]}
+
+
+def ki_is_client(c):
+    return z3.is_true(z3.simplify(c.old('_is_client')))
+
+
+def ki_payload(c):
+    return c.old_state.rec(c.argv('packet')).fields['_packet'].z
+
+
+def ki_send_kexinit(cx):
+    """_send_kexinit (own contract elsewhere): builds and records OUR KEXINIT payload, sends it"""
+    own = '_client_kexinit' if z3.is_true(z3.simplify(cx.selff('_is_client').z)) else '_server_kexinit'
+    return [Out(sets={own: cx.fresh('bytes', 'own_kexinit')}, event=('send_kexinit', ()))]
+
+
+ki_send_kexinit.modifies = ('_client_kexinit', '_server_kexinit')
+
+
+def ki_get_kex(cx):
+    """kex.get_kex(conn, alg): Kex.__init__ records alg as .algorithm (for gss-* the mechanism suffix is cut)"""
+    k = cx.ex.new_object(cx.st, 'Kex', 'kex')
+    alg = cx.args[1].z
+    a = cx.st.rec(k).fields['algorithm'].z
+    gss = bytes_const(b'gss-')
+    return [Out(ret=k, assume=[z3.Or(a == alg, z3.And(z3.PrefixOf(gss, alg), z3.PrefixOf(gss, a)))],
+                event=('get_kex', (cx.args[1],)))]
+
+
+ki_get_kex.modifies = ()
+
+
+def ki_needs_mac(cx):
+    r = cx.fresh('bool', 'needs_mac')
+    return [Out(ret=r, assume=[r.z == _needs_mac(cx.args[0].z)])]
+
+
+ki_needs_mac.modifies = ()
+
+
+def ki_kex_start(cx):
+    aw = cx.fresh('opaque:Awaitable', 'kex_start')
+    isaw = z3.Function('isawaitable_Awaitable', opaque_sort('Awaitable'), BoolS)
+    return [Out(ret=aw, assume=[isaw(aw.z)], event=('kex_start', (cx.recv,)))]
+
+
+ki_kex_start.modifies = ()
+
+
+def ki_requires(c):
+    p = c.old_state.rec(c.argv('packet')).fields
+    return z3.And(p['_idx'].z == 1, p['_len'].z == z3.Length(p['_packet'].z))
+
+
+class RSpec(Spec):
+    """several contracts (regions) of one function: distinct obligation names"""
+    @property
+    def name(self):
+        return f'{self.prop}.{self.module}.{self.qualname}[{self.tag}]'
+
+
+def _ki_cut(fn):
+    """index of the statement that starts the negotiation: the first assignment to `kex_alg`"""
+    import ast
+    for i, st_ in enumerate(fn.body):
+        if isinstance(st_, ast.Assign) and any(isinstance(t, ast.Name) and t.id == 'kex_alg' for t in st_.targets):
+            return i
+    raise Unsupported('_process_kexinit: no assignment to kex_alg (cut point of the two region contracts)')
+
+
+def _ki_cut0(fn):
+    """index of the first statement after the parsing block, i.e. after `packet.check_end()`"""
+    import ast
+    for i, st_ in enumerate(fn.body):
+        if isinstance(st_, ast.Expr) and isinstance(st_.value, ast.Call) and \
+                ast.unparse(st_.value.func) == 'packet.check_end':
+            return i + 1
+    raise Unsupported('_process_kexinit: no packet.check_end() statement (cut point of the region contracts)')
+
+
+# _process_kexinit is verified in three parts (sequential composition; the mid-conditions are proved, not assumed):
+#   [parse]      up to packet.check_end(): the eight peer name-list locals are the RFC fields of the payload, the
+#                packet is consumed completely (so get_consumed_payload() is the whole payload);
+#   [record]     up to `kex_alg = ...`, started with a completely consumed packet: I_C / I_S recorded verbatim, our
+#                own KEXINIT untouched by peer data, our kex list derived from configuration;
+#   [negotiate]  started with ARBITRARY values of the locals: every recorded algorithm is the result of
+#                _choose_alg(our configured list, the local holding the peer's list for that SAME category and
+#                direction) - i.e. (contract of _choose_alg) first_common(client list, server list).
+# [parse] proves local_k == namelist_k(payload), so together: algorithm == first_common(ours, namelist_k(payload)).
+KI_LOCALS = ['peer_kex_algs', 'peer_host_key_algs', 'enc_algs_cs', 'enc_algs_sc', 'mac_algs_cs', 'mac_algs_sc',
+             'cmp_algs_cs', 'cmp_algs_sc']
+
+
+def ki_local_is_field(k):
+    return lambda c: c.local(KI_LOCALS[k]) == kexinit_namelists(ki_payload(c))[k]
+
+
+def ki_consumed(c):
+    """a KEXINIT with trailing bytes is rejected, so what was consumed is the whole payload"""
+    p = c.new_state.rec(c.argv('packet')).fields
+    return z3.And(p['_packet'].z == ki_payload(c), p['_idx'].z == z3.Length(ki_payload(c)),
+                  p['_len'].z == z3.Length(ki_payload(c)))
+
+
+def ki_first_follows(c):
+    """first_kex_packet_follows is the boolean after the ten name-lists (followed by the reserved uint32)"""
+    P = ki_payload(c)
+    return c.local('first_kex_follows') == (P[z3.Length(P) - 5] != 0)
+
+
+KI_STUBS = dict(ROLE_STUBS, **{
+    'self._send_kexinit': ki_send_kexinit,
+    'self._gss.reset': noop(),
+    'expand_kex_algs': ret('seq[bytes]', 'local_kex_algs'),
+    'self._choose_alg': contract_stub(lambda: choose_alg_bytes),
+    'get_kex': ki_get_kex,
+    '*.choose_server_host_key': ret('bool', 'host_key_ok'),
+    'encryption_needs_mac': ki_needs_mac,
+    'self._kex.start': ki_kex_start,
+})
+# GSS key exchange is out of scope (library absent in the sandbox, see ASSUMPTIONS): _gss_kex is off
+KI_CASES = [('client', {'_is_client': True, '_gss_kex': False}), ('server', {'_is_client': False, '_gss_kex': False})]
+KI_PARAMS = dict(_pkttype='int', _pktid='int', packet='obj:SSHPacket')
+KI_INLINE = dict(PACKET_INLINE, **{'SSHPacket.get_namelist': ('packet', 'SSHPacket.get_namelist')})
+
+kexinit_parse = RSpec(
+    'C03', 'connection', 'SSHConnection._process_kexinit', self_class='SSHConnection',
+    params=KI_PARAMS, classes=KI_CLASSES, truthy=PACKET_TRUTHY, inline=KI_INLINE, stubs=KI_STUBS,
+    requires=ki_requires, region=lambda fn: fn.body[:_ki_cut0(fn)],
+    ensures=[('packet-consumed-completely', ki_consumed), ('first-kex-follows-flag', ki_first_follows)] +
+            [(f'{n}-is-namelist-{k + 1}-of-payload', ki_local_is_field(k)) for k, n in enumerate(KI_LOCALS)],
+    raises={'ProtocolError': lambda c: z3.Not(c.oldv('_kex').isnone), 'PacketDecodeError': True})
+kexinit_parse.tag = 'parse'
+kexinit_parse.no_replay = True
+kexinit_parse.feasible_timeout_ms = 300
+
+
+def ki_record_setup(ex, st):
+    for n in KI_LOCALS:
+        st.env[n] = ex.fresh(st, 'seq[bytes]', n)
+    st.env['first_kex_follows'] = ex.fresh(st, 'bool', 'first_kex_follows')
+
+
+def ki_record_requires(c):
+    """mid-condition established by [parse]"""
+    p = c.old_state.rec(c.argv('packet')).fields
+    return z3.And(p['_idx'].z == z3.Length(p['_packet'].z), p['_len'].z == z3.Length(p['_packet'].z))
+
+
+def ki_verbatim(c):
+    """I_C / I_S as hashed later is the peer's whole KEXINIT payload, type byte included, nothing re-encoded"""
+    return c.new('_server_kexinit' if ki_is_client(c) else '_client_kexinit') == ki_payload(c)
+
+
+def ki_own_kexinit(c):
+    """our own I_C / I_S is never touched by the peer's data: unchanged, or what _send_kexinit just recorded"""
+    own = '_client_kexinit' if ki_is_client(c) else '_server_kexinit'
+    sent = c.calls('_send_kexinit')
+    if not sent:
+        return c.new(own) == c.old(own)
+    return z3.And(z3.BoolVal(len(sent) == 1), c.new(own) == sent[0]['sets'][own].z)
+
+
+def ki_local_kex_list(c):
+    """the list we negotiate the kex method from is derived from our configured _kex_algs"""
+    e = c.calls('expand_kex_algs')
+    return z3.And(z3.BoolVal(len(e) == 1), e[0]['args'][0].z == c.old('_kex_algs'), c.local('kex_algs') == e[0]['ret'].z)
+
+
+def ki_locals_kept(c):
+    """the peer lists handed to [negotiate] are the ones [parse] produced"""
+    return z3.And([c.local(n) == c.arg(n) for n in KI_LOCALS] +
+                  [c.local('first_kex_follows') == c.arg('first_kex_follows')])
+
+
+kexinit_record = RSpec(
+    'C03', 'connection', 'SSHConnection._process_kexinit', self_class='SSHConnection',
+    params=KI_PARAMS, classes=KI_CLASSES, truthy=PACKET_TRUTHY, inline=KI_INLINE, stubs=KI_STUBS, cases=KI_CASES,
+    requires=ki_record_requires, setup=ki_record_setup,
+    region=lambda fn: fn.body[_ki_cut0(fn):_ki_cut(fn)],
+    ensures=[('peer-kexinit-recorded-verbatim', ki_verbatim),
+             ('own-kexinit-untouched-by-peer-data', ki_own_kexinit),
+             ('our-kex-list-from-configuration', ki_local_kex_list),
+             ('peer-lists-unchanged', ki_locals_kept)],
+    raises={'ProtocolError': True})
+kexinit_record.tag = 'record'
+kexinit_record.no_replay = True
+kexinit_record.feasible_timeout_ms = 300
+
+
+def ki_negotiate_setup(ex, st):
+    for n in KI_LOCALS + ['kex_algs']:
+        st.env[n] = ex.fresh(st, 'seq[bytes]', n)
+        st.inputs[n] = st.env[n]
+    st.env['first_kex_follows'] = ex.fresh(st, 'bool', 'first_kex_follows')
+
+
+def ki_chosen(c, which, value):
+    """`value` is the result of a _choose_alg call made with (our list, the peer's list) of category `which`;
+    by the contract of _choose_alg it is then the first entry of the client's list that the server's list contains"""
+    peer = c.arg(KI_LOCALS[which])
+    if which == F_KEX:
+        ours = c.arg('kex_algs')
+    else:
+        ours = c.old({F_ENC_CS: '_enc_algs', F_ENC_SC: '_enc_algs', F_MAC_CS: '_mac_algs', F_MAC_SC: '_mac_algs',
+                      F_CMP_CS: '_cmp_algs', F_CMP_SC: '_cmp_algs'}[which])
+    alts = [z3.And(x['ret'].z == value, x['args'][1].z == ours, x['args'][2].z == peer)
+            for x in c.calls('_choose_alg') if x['exc'] is None]
+    return z3.Or(alts) if alts else z3.BoolVal(False)
+
+
+def ki_negotiated(field, which):
+    return lambda c: ki_chosen(c, which, c.new(field))
+
+
+def ki_mac(field, enc_field, which):
+    """MAC for one direction: negotiated from that direction's MAC lists, unless the cipher of that direction is
+    an AEAD mode (then the 'MAC' recorded is the cipher name itself, RFC 5647 / chacha20-poly1305@openssh.com)"""
+    def post(c):
+        enc = c.new(enc_field)
+        return z3.If(_needs_mac(enc), ki_chosen(c, which, c.new(field)), c.new(field) == enc)
+    return post
+
+
+def ki_kex(c):
+    alg = c.new_state.rec(c.newv('_kex')).fields['algorithm'].z
+    return z3.Implies(z3.Not(z3.PrefixOf(bytes_const(b'gss-'), alg)), ki_chosen(c, F_KEX, alg))
+
+
+def ki_started(c):
+    ev = c.events('kex_start')
+    kex = c.newv('_kex')
+    return z3.BoolVal(len(ev) == 1 and isinstance(kex, VRef) and ev[0][1][0].addr == kex.addr)
+
+
+kexinit_negotiate = RSpec(
+    'C03', 'connection', 'SSHConnection._process_kexinit', self_class='SSHConnection',
+    params=dict(_pkttype='int', _pktid='int', packet='obj:SSHPacket'),
+    classes=KI_CLASSES, truthy=PACKET_TRUTHY, stubs=KI_STUBS, cases=KI_CASES,
+    region=lambda fn: fn.body[_ki_cut(fn):], setup=ki_negotiate_setup,
+    ensures=[('kex-alg-first-client-preferred', ki_kex),
+             ('enc-cs-from-cs-lists', ki_negotiated('_enc_alg_cs', F_ENC_CS)),
+             ('enc-sc-from-sc-lists', ki_negotiated('_enc_alg_sc', F_ENC_SC)),
+             ('mac-cs-from-cs-lists', ki_mac('_mac_alg_cs', '_enc_alg_cs', F_MAC_CS)),
+             ('mac-sc-from-sc-lists', ki_mac('_mac_alg_sc', '_enc_alg_sc', F_MAC_SC)),
+             ('cmp-cs-from-cs-lists', ki_negotiated('_cmp_alg_cs', F_CMP_CS)),
+             ('cmp-sc-from-sc-lists', ki_negotiated('_cmp_alg_sc', F_CMP_SC)),
+             ('selected-kex-started-once', ki_started)],
+    raises={'KeyExchangeFailed': True, 'UnicodeDecodeError': True})
+kexinit_negotiate.tag = 'negotiate'
+kexinit_negotiate.no_replay = True
+kexinit_negotiate.feasible_timeout_ms = 300
+
+
+# ===================================================================== (c) what is hashed
+# RFC 4253 8:  H = hash(V_C || V_S || I_C || I_S || K_S || e || f || K), every item length-prefixed
+# (string / mpint encoding); RFC 4419 3 inserts min || n || max || p || g between K_S and e.
+from pyvc.builtins_model import be
+
+_mpint = z3.Function('mpint_enc', IntS, BytesS)       # packet.MPInt (RFC 4251 5 mpint encoding, injective)
+_hashfn = z3.Function('hash_of', BytesS, BytesS)      # the negotiated hash function applied to the whole input
+
+
+def ssh_string_z(v):
+    return z3.Concat(be(z3.IntVal(4), z3.Length(v)), v)
+
+
+def mpint_stub(cx):
+    v = cx.args[0]
+    return VBytes(_mpint(v.z if isinstance(v, VInt) else zt(v)))
+
+
+mpint_stub.modifies = ()
+
+get_hash_prefix = Spec(
+    'C03', 'connection', 'SSHConnection.get_hash_prefix', self_class='SSHConnection',
+    classes={'SSHConnection': {'_client_version': 'bytes', '_server_version': 'bytes',
+                               '_client_kexinit': 'bytes', '_server_kexinit': 'bytes'}},
+    ensures=[('prefix==String(V_C)||String(V_S)||String(I_C)||String(I_S)',
+              lambda c: c.result == z3.Concat(ssh_string_z(c.old('_client_version')),
+                                              ssh_string_z(c.old('_server_version')),
+                                              ssh_string_z(c.old('_client_kexinit')),
+                                              ssh_string_z(c.old('_server_kexinit'))))],
+    modifies=[], returns='bytes')
+
+KEX_FIELDS = {'_conn': 'obj:Conn', '_gex_data': 'bytes', '_e': 'int', '_f': 'int', '_p': 'int', '_g': 'int',
+              '_dh': 'opt[obj:DH]', '_init_type': 'int', '_reply_type': 'int', '_group_type': 'int',
+              '_client_pub': 'bytes', '_server_pub': 'bytes', '_priv': 'obj:ECDHKey'}
+KEX_CLASSES = {'_KexDHBase': KEX_FIELDS, '_KexDHGex': KEX_FIELDS, '_KexECDH': KEX_FIELDS, 'Conn': {'_is_client': 'bool'},
+               'DH': {}, 'ECDHKey': {}, 'Hash': {'ghost_acc': 'bytes'}, 'Key': {'public_data': 'bytes'}}
+
+
+def hash_new(cx):
+    h = cx.ex.new_object(cx.st, 'Hash', 'hash_obj')
+    cx.st.set_field(h, 'ghost_acc', VBytes(z3.Empty(BytesS)))
+    return [Out(ret=h)]
+
+
+def hash_update(cx):
+    acc = cx.ex.get_field(cx.st, cx.recv, 'ghost_acc')
+    return [Out(ret=VNone, sets={'ghost_acc': VBytes(z3.Concat(acc.z, cx.args[0].z))})]
+
+
+def hash_digest(cx):
+    acc = cx.ex.get_field(cx.st, cx.recv, 'ghost_acc')
+    return [Out(ret=VBytes(_hashfn(acc.z)))]
+
+
+for _s in (hash_new, hash_update, hash_digest):
+    _s.modifies = ()
+
+
+def ch_expected(c):
+    prefix = c.calls('get_hash_prefix')[0]['ret'].z
+    ck = c.calls('_format_client_key')[0]['ret'].z
+    sk = c.calls('_format_server_key')[0]['ret'].z
+    return z3.Concat(prefix, ssh_string_z(c.arg('host_key_data')), c.old('_gex_data'), ck, sk, c.arg('k'))
+
+
+compute_hash = Spec(
+    'C03', 'kex_dh', '_KexDHBase._compute_hash', self_class='_KexDHBase',
+    params=dict(host_key_data='bytes', k='bytes'), classes=KEX_CLASSES,
+    stubs={'self._hash_alg': hash_new, 'Hash.update': hash_update, 'Hash.digest': hash_digest,
+           'self._conn.get_hash_prefix': ret('bytes', 'hash_prefix'),
+           'self._format_client_key': ret('bytes', 'client_key_enc'),
+           'self._format_server_key': ret('bytes', 'server_key_enc')},
+    ensures=[('H==hash(prefix||String(K_S)||gex_data||e||f||K)', lambda c: c.result == _hashfn(ch_expected(c))),
+             ('each-item-once', lambda c: z3.BoolVal(len(c.calls('get_hash_prefix')) == 1 and
+                                                     len(c.calls('_format_client_key')) == 1 and
+                                                     len(c.calls('_format_server_key')) == 1))],
+    modifies=[], returns='bytes')
+compute_hash.no_replay = True      # hash object is a ghost accumulator
+
+# the virtual formatters: classic DH hashes mpint(e), mpint(f); ECDH hashes string(Q_C), string(Q_S) (RFC 5656 4)
+fmt_specs = []
+for _cls, _meth, _fld, _enc in (('_KexDHBase', '_format_client_key', '_e', _mpint),
+                                ('_KexDHBase', '_format_server_key', '_f', _mpint),
+                                ('_KexECDH', '_format_client_key', '_client_pub', ssh_string_z),
+                                ('_KexECDH', '_format_server_key', '_server_pub', ssh_string_z)):
+    _sp = Spec('C03', 'kex_dh', f'{_cls}.{_meth}', self_class=_cls, classes=KEX_CLASSES, stubs={'MPInt': mpint_stub},
+               ensures=[(f'encodes-{_fld}', (lambda fld, enc: lambda c: c.result == enc(c.old(fld)))(_fld, _enc))],
+               modifies=[], returns='bytes')
+    _sp.no_replay = _enc is _mpint
+    fmt_specs.append(_sp)
+
+
+# ===================================================================== (e) range checks (RFC 4253 8: "Values of 'e'
+# or 'f' that are not in the range [1, p-1] MUST NOT be sent or accepted by either side")
+def dh_get_shared(cx):
+    """DH.get_shared(peer_public): the call-site precondition IS the property - never called out of range"""
+    v = cx.args[0].z
+    p = cx.selff('_p').z
+    cx.require('peer-value-in-[1,p-1]', z3.And(1 <= v, v <= p - 1))
+    return [Out(ret=cx.fresh('int', 'shared_secret'), event=('get_shared', (cx.args[0],)))]
+
+
+def dh_new(cx):
+    d = cx.ex.new_object(cx.st, 'DH', 'dh')
+    return [Out(ret=d, event=('DH', tuple(cx.args)))]
+
+
+for _s in (dh_get_shared, dh_new):
+    _s.modifies = ()
+
+
+def in_range(c, fld):
+    return z3.And(1 <= c.old(fld), c.old(fld) <= c.old('_p') - 1)
+
+
+compute_client_shared = Spec(
+    'C03', 'kex_dh', '_KexDHBase._compute_client_shared', self_class='_KexDHBase', classes=KEX_CLASSES,
+    stubs={'self._dh.get_shared': dh_get_shared, 'MPInt': mpint_stub},
+    ensures=[('f-in-range', lambda c: in_range(c, '_f')),
+             ('K-from-f', lambda c: z3.And(z3.BoolVal(len(c.events('get_shared')) == 1),
+                                            c.events('get_shared')[0][1][0].z == c.old('_f'),
+                                            c.result == _mpint(c.calls('get_shared')[0]['ret'].z)))],
+    raises={'ProtocolError': lambda c: z3.And(z3.Not(in_range(c, '_f')), z3.BoolVal(not c.events('get_shared'))),
+            # _dh is set by _perform_init before any reply can be processed; a reply without init never reaches
+            # get_shared either
+            'AssertionError': lambda c: z3.And(c.oldv('_dh').isnone, z3.BoolVal(not c.events('get_shared')))},
+    modifies=[], returns='bytes')
+compute_client_shared.no_replay = True
+
+compute_server_shared = Spec(
+    'C03', 'kex_dh', '_KexDHBase._compute_server_shared', self_class='_KexDHBase', classes=KEX_CLASSES,
+    stubs={'DH': dh_new, 'self._dh.get_public': ret('int', 'dh_public'), 'self._dh.get_shared': dh_get_shared,
+           'MPInt': mpint_stub},
+    ensures=[('e-in-range', lambda c: in_range(c, '_e')),
+             ('group-is-the-negotiated-one', lambda c: z3.And(
+                 z3.BoolVal(len(c.events('DH')) == 1), c.events('DH')[0][1][0].z == c.old('_g'),
+                 c.events('DH')[0][1][1].z == c.old('_p'))),
+             ('f-is-our-public-value', lambda c: c.new('_f') == c.calls('get_public')[0]['ret'].z),
+             ('K-from-e', lambda c: z3.And(z3.BoolVal(len(c.events('get_shared')) == 1),
+                                            c.events('get_shared')[0][1][0].z == c.old('_e'),
+                                            c.result == _mpint(c.calls('get_shared')[0]['ret'].z)))],
+    always=[('e,p,g,gex_data-unchanged', lambda c: z3.And(c.new('_e') == c.old('_e'), c.new('_p') == c.old('_p'),
+                                                          c.new('_g') == c.old('_g'),
+                                                          c.new('_gex_data') == c.old('_gex_data')))],
+    raises={'ProtocolError': lambda c: z3.And(z3.Not(in_range(c, '_e')), z3.BoolVal(not c.events('get_shared')))},
+    returns='bytes')
+compute_server_shared.no_replay = True
+
+
+# ECDH (RFC 5656 4: invalid public keys must be rejected): the primitive's ValueError becomes a ProtocolError,
+# i.e. a disconnect - never a completed exchange
+def ecdh_get_shared(cx):
+    return [Out(ret=cx.fresh('int', 'ec_shared'), event=('ec_get_shared', (cx.args[0],))),
+            Out(exc=VExc('ValueError'), event=('ec_invalid', (cx.args[0],)))]
+
+
+ecdh_get_shared.modifies = ()
+
+
+def _ecdh_shared_spec(meth, peer_fld):
+    sp = Spec('C03', 'kex_dh', f'_KexECDH.{meth}', self_class='_KexECDH', classes=KEX_CLASSES,
+              stubs={'self._priv.get_shared': ecdh_get_shared, 'MPInt': mpint_stub},
+              ensures=[('K-from-the-peer-key-that-is-hashed', lambda c: z3.And(
+                  z3.BoolVal(len(c.events('ec_get_shared')) == 1 and not c.events('ec_invalid')),
+                  c.events('ec_get_shared')[0][1][0].z == c.old(peer_fld),
+                  c.result == _mpint(c.calls('get_shared')[0]['ret'].z)))],
+              raises={'ProtocolError': lambda c: z3.BoolVal(len(c.events('ec_invalid')) == 1)},
+              modifies=[], returns='bytes')
+    sp.no_replay = True
+    return sp
+
+
+ecdh_client_shared = _ecdh_shared_spec('_compute_client_shared', '_server_pub')
+ecdh_server_shared = _ecdh_shared_spec('_compute_server_shared', '_client_pub')
+
+
+# ===================================================================== (d) verify before NEWKEYS (client)
+def _prior(cx, name):
+    return [x for x in cx.st.calls if x['key'].endswith(name)]
+
+
+def send_newkeys_after_verify(cx):
+    """Call-site precondition of SSHConnection.send_newkeys(k, h) on the client path: the host key's signature over
+    exactly this h was checked (verify returned true) in the same activation, h is the exchange hash of exactly
+    this k and of the host key blob that was validated, and k is the shared secret just computed."""
+    k, h = cx.args[0].z, cx.args[1].z
+    ver = _prior(cx, 'key.verify')
+    hs = _prior(cx, '_compute_hash')
+    ks = _prior(cx, '_compute_client_shared')
+    ok = z3.BoolVal(len(ver) == 1 and len(hs) == 1 and len(ks) == 1)
+    if len(ver) == 1 and len(hs) == 1 and len(ks) == 1:
+        key_data, sig = cx.st.env['key_data'].z, cx.st.env['sig'].z
+        ok = z3.And(cx.ex.truthy(cx.st, ver[0]['ret']),              # verify(...) returned true
+                    ver[0]['args'][0].z == h, ver[0]['args'][1].z == sig,
+                    hs[0]['ret'].z == h, hs[0]['args'][0].z == key_data, hs[0]['args'][1].z == k,
+                    ks[0]['ret'].z == k)
+    cx.require('signature-over-this-H-verified-first', ok)
+    return [Out(event=('send_newkeys', tuple(cx.args)))]
+
+
+send_newkeys_after_verify.modifies = ()
+
+verify_reply = Spec(
+    'C03', 'kex_dh', '_KexDHBase._verify_reply', self_class='_KexDHBase',
+    params=dict(key='obj:Key', key_data='bytes', sig='bytes'), classes=KEX_CLASSES,
+    stubs={'self._compute_client_shared': may_raise(ret('bytes', 'K'), 'ProtocolError'),
+           'self._compute_hash': ret('bytes', 'H'),
+           'key.verify': ret('bool', 'sig_ok'),
+           'self._conn.send_newkeys': send_newkeys_after_verify},
+    ensures=[('newkeys-exactly-once', lambda c: z3.BoolVal(len(c.events('send_newkeys')) == 1))],
+    raises={'KeyExchangeFailed': lambda c: z3.BoolVal(not c.events('send_newkeys')),
+            'ProtocolError': lambda c: z3.BoolVal(not c.events('send_newkeys'))},
+    modifies=[])
+
+
+# server side: the signature sent, the hash handed to send_newkeys and the host key blob sent are consistent
+def pr_consistent(c):
+    ks, hs, sg = c.calls('_compute_server_shared'), c.calls('_compute_hash'), c.calls('key.sign')
+    rp, nk = c.calls('_send_reply'), c.calls('send_newkeys')
+    if not all(len(x) == 1 for x in (ks, hs, sg, rp, nk)):
+        return z3.BoolVal(False)
+    k, h = ks[0]['ret'].z, hs[0]['ret'].z
+    return z3.And(hs[0]['args'][0].z == c.arg('key_data'), hs[0]['args'][1].z == k, sg[0]['args'][0].z == h,
+                  rp[0]['args'][0].z == c.arg('key_data'), rp[0]['args'][1].z == sg[0]['ret'].z,
+                  nk[0]['args'][0].z == k, nk[0]['args'][1].z == h)
+
+
+perform_reply = Spec(
+    'C03', 'kex_dh', '_KexDHBase._perform_reply', self_class='_KexDHBase',
+    params=dict(key='obj:Key', key_data='bytes'), classes=KEX_CLASSES,
+    stubs={'self._compute_server_shared': may_raise(ret('bytes', 'K'), 'ProtocolError'),
+           'self._compute_hash': ret('bytes', 'H'), 'key.sign': ret('bytes', 'sig'),
+           'self._send_reply': noop('send_reply'), 'self._conn.send_newkeys': noop('send_newkeys')},
+    ensures=[('reply,signature,newkeys-use-the-same-K,H,K_S', pr_consistent)],
+    raises={'ProtocolError': lambda c: z3.BoolVal(not c.calls('send_newkeys') and not c.calls('_send_reply'))},
+    modifies=[])
+
+
+# ===================================================================== (f) role checks / message order
+CONN_ROLE_STUBS = {'self._conn.is_client': lambda cx: cx.ex.get_field(cx.st, cx.recv, '_is_client'),
+                   'self._conn.is_server': lambda cx: VBool(z3.Not(cx.ex.get_field(cx.st, cx.recv, '_is_client').z))}
+for _s in CONN_ROLE_STUBS.values():
+    _s.modifies = ()
+
+
+def conn_is_client(c):
+    return c.old('_is_client', c.oldv('_conn'))
+
+
+def nothing_happened(c, *names):
+    return z3.BoolVal(not any(c.calls(n) for n in names))
+
+
+def pkt(c, new=False):
+    return (c.new_state if new else c.old_state).rec(c.argv('packet')).fields
+
+
+def pkt_wf(c):
+    p = pkt(c)
+    return z3.And(p['_idx'].z == 1, p['_len'].z == z3.Length(p['_packet'].z))
+
+
+KEXP_CLASSES = dict(KEX_CLASSES, **PACKET_CLASSES)
+KEXP_PARAMS = dict(_pkttype='int', _pktid='int', packet='obj:SSHPacket')
+
+process_init = Spec(
+    'C03', 'kex_dh', '_KexDHBase._process_init', self_class='_KexDHBase', params=KEXP_PARAMS, classes=KEXP_CLASSES,
+    truthy=PACKET_TRUTHY, inline=dict(PACKET_INLINE),
+    requires=lambda c: pkt_wf(c),
+    stubs=dict(CONN_ROLE_STUBS, **{
+        'self._parse_client_key': may_raise(noop('parse_client_key'), 'ProtocolError', 'PacketDecodeError'),
+        '*.get_server_host_key': ret('opt[obj:Key]', 'host_key'),
+        'self._perform_reply': may_raise(noop('perform_reply'), 'ProtocolError')}),
+    ensures=[('only-a-server-answers-INIT', lambda c: z3.Not(conn_is_client(c))),
+             ('reply-uses-our-host-key-and-its-public-blob', lambda c: (lambda pr, hk: z3.And(
+                 z3.BoolVal(len(pr) == 1 and len(hk) == 1 and isinstance(pr[0]['args'][0], VRef)),
+                 z3.BoolVal(isinstance(pr[0]['args'][0], VRef) and isinstance(hk[0]['ret'], VOpt) and
+                            pr[0]['args'][0].addr == hk[0]['ret'].val.addr),
+                 pr[0]['args'][1].z == c.new('public_data', pr[0]['args'][0]) if isinstance(pr[0]['args'][0], VRef)
+                 else z3.BoolVal(False)))(c.calls('_perform_reply'), c.calls('get_server_host_key')))],
+    always=[('INIT-on-a-client-is-fatal-and-inert', lambda c: z3.Implies(conn_is_client(c), z3.And(
+        z3.BoolVal(c.raised == 'ProtocolError'),
+        nothing_happened(c, '_parse_client_key', '_perform_reply', 'get_server_host_key'))))],
+    raises={'ProtocolError': True, 'PacketDecodeError': True,
+            'AssertionError': lambda c: nothing_happened(c, '_perform_reply')},
+    modifies=[])
+
+
+def rp_consistent(c):
+    v, vr = c.calls('validate_server_host_key'), c.calls('_verify_reply')
+    if len(v) != 1 or len(vr) != 1:
+        return z3.BoolVal(False)
+    key_ok = c.eq(vr[0]['args'][0], v[0]['ret'])
+    return z3.And(key_ok, vr[0]['args'][1].z == v[0]['args'][0].z)
+
+
+process_reply = Spec(
+    'C03', 'kex_dh', '_KexDHBase._process_reply', self_class='_KexDHBase', params=KEXP_PARAMS, classes=KEXP_CLASSES,
+    truthy=PACKET_TRUTHY, inline=dict(PACKET_INLINE),
+    requires=lambda c: pkt_wf(c),
+    stubs=dict(CONN_ROLE_STUBS, **{
+        'self._parse_server_key': may_raise(noop('parse_server_key'), 'ProtocolError', 'PacketDecodeError'),
+        '*.validate_server_host_key': may_raise(ret('obj:Key', 'validated_key'), 'HostKeyNotVerifiable',
+                                                'KeyImportError'),
+        'self._verify_reply': may_raise(noop('verify_reply'), 'ProtocolError', 'KeyExchangeFailed')}),
+    ensures=[('only-a-client-accepts-REPLY', conn_is_client),
+             ('verified-key-is-the-validated-one-for-the-hashed-blob', rp_consistent)],
+    always=[('REPLY-on-a-server-is-fatal-and-inert', lambda c: z3.Implies(z3.Not(conn_is_client(c)), z3.And(
+        z3.BoolVal(c.raised == 'ProtocolError'),
+        nothing_happened(c, '_parse_server_key', 'validate_server_host_key', '_verify_reply'))))],
+    raises={'ProtocolError': True, 'PacketDecodeError': True, 'KeyExchangeFailed': True,
+            'HostKeyNotVerifiable': lambda c: nothing_happened(c, '_verify_reply'),
+            'KeyImportError': lambda c: nothing_happened(c, '_verify_reply')},
+    modifies=[])
+
+
+# ===================================================================== group exchange (RFC 4419)
+_sunbe = z3.Function('sunbe', BytesS, IntS)      # two's complement big-endian decode (engine model of from_bytes signed)
+GEX_INLINE = dict(PACKET_INLINE, **{'SSHPacket.get_mpint': ('packet', 'SSHPacket.get_mpint'),
+                                    'self._init_group': ('kex_dh', '_KexDHBase._init_group')})
+
+
+def gex_unchanged(c):
+    return z3.And(c.new('_p') == c.old('_p'), c.new('_g') == c.old('_g'), c.new('_gex_data') == c.old('_gex_data'))
+
+
+def pg_group_from_packet(c):
+    """GROUP = byte 31 || mpint p || mpint g"""
+    P = pkt(c)['_packet'].z
+    l1 = unbe(z3.Extract(P, 1, 4))
+    p = _sunbe(z3.Extract(P, 5, l1))
+    l2 = unbe(z3.Extract(P, 5 + l1, 4))
+    g = _sunbe(z3.Extract(P, 5 + l1 + 4, l2))
+    return z3.And(c.new('_p') == p, c.new('_g') == g)
+
+
+process_group = Spec(
+    'C03', 'kex_dh', '_KexDHGex._process_group', self_class='_KexDHGex', params=KEXP_PARAMS, classes=KEXP_CLASSES,
+    truthy=PACKET_TRUTHY, inline=GEX_INLINE, requires=pkt_wf,
+    stubs=dict(CONN_ROLE_STUBS, **{'MPInt': mpint_stub, 'self._perform_init': noop('perform_init')}),
+    ensures=[('only-a-client-accepts-GROUP-and-only-once', lambda c: z3.And(conn_is_client(c), c.old('_p') == 0)),
+             ('group-is-the-one-in-the-packet', pg_group_from_packet),
+             ('hash-input-covers-the-installed-group', lambda c: c.new('_gex_data') == z3.Concat(
+                 c.old('_gex_data'), _mpint(c.new('_p')), _mpint(c.new('_g')))),
+             ('init-sent-once', lambda c: z3.BoolVal(len(c.events('perform_init')) == 1))],
+    always=[('GROUP-on-a-server-or-repeated-is-fatal-and-inert', lambda c: z3.Implies(
+        z3.Or(z3.Not(conn_is_client(c)), c.old('_p') != 0),
+        z3.And(z3.BoolVal(c.raised == 'ProtocolError' and not c.events('perform_init')), gex_unchanged(c))))],
+    raises={'ProtocolError': True, 'PacketDecodeError': lambda c: z3.BoolVal(not c.events('perform_init'))})
+process_group.no_replay = True     # mpint encode/decode are uninterpreted
+
+
+def gex_table(c):
+    """(size, g, p) rows of the module's table, read from the analysed source"""
+    from pyvc import extract
+    mod = extract.get_module('kex_dh')
+    return mod.lookup_const('_dh_gex_groups')
+
+
+def gex_select(rows, pref, mx):
+    """RFC 4419 3 as implemented by servers with a fixed table (documented rule): among the rows whose size does
+    not exceed max take the first whose size reaches the preferred size, else the largest; none -> the first row"""
+    n = len(rows)
+    sel = z3.IntVal(n - 1)
+    for i in range(n - 1, -1, -1):
+        size = rows[i][0]
+        nxt_too_big = z3.BoolVal(True) if i == n - 1 else (z3.IntVal(rows[i + 1][0]) > mx)
+        sel = z3.If(z3.And(size <= mx, z3.Or(size >= pref, nxt_too_big)), i, sel) if i else \
+            z3.If(z3.Or(size > mx, size >= pref, nxt_too_big), 0, sel)
+    return sel
+
+
+def prq_fields(c):
+    P = pkt(c)['_packet'].z
+    old = c.arg('pkttype') == 30
+    pref = z3.If(old, unbe(z3.Extract(P, 1, 4)), unbe(z3.Extract(P, 5, 4)))
+    mx = z3.If(old, 8192, unbe(z3.Extract(P, 9, 4)))
+    return P, pref, mx
+
+
+def prq_selected(c):
+    rows = gex_table(c)
+    _P, pref, mx = prq_fields(c)
+    sel = gex_select(rows, pref, mx)
+    return z3.And([z3.Implies(sel == i, z3.And(c.new('_g') == r[1], c.new('_p') == r[2])) for i, r in enumerate(rows)])
+
+
+def prq_sent(c):
+    sp = c.calls('send_packet')
+    if len(sp) != 1:
+        return z3.BoolVal(False)
+    a = sp[0]['args']
+    return z3.And(a[0].z == c.old('_group_type'), a[1].z == _mpint(c.new('_p')), a[2].z == _mpint(c.new('_g')))
+
+
+process_request = Spec(
+    'C03', 'kex_dh', '_KexDHGex._process_request', self_class='_KexDHGex',
+    params=dict(pkttype='int', _pktid='int', packet='obj:SSHPacket'), classes=KEXP_CLASSES,
+    truthy=PACKET_TRUTHY, inline=GEX_INLINE,
+    requires=lambda c: z3.And(pkt_wf(c), z3.Or(c.arg('pkttype') == 30, c.arg('pkttype') == 34)),
+    stubs=dict(CONN_ROLE_STUBS, **{'MPInt': mpint_stub, 'self.send_packet': noop('send_packet')}),
+    ensures=[('only-a-server-accepts-REQUEST-and-only-once', lambda c: z3.And(z3.Not(conn_is_client(c)),
+                                                                              c.old('_p') == 0)),
+             ('hash-input==request-bytes||mpint(p)||mpint(g)', lambda c: c.new('_gex_data') == z3.Concat(
+                 z3.Extract(pkt(c)['_packet'].z, 1, z3.Length(pkt(c)['_packet'].z) - 1),
+                 _mpint(c.new('_p')), _mpint(c.new('_g')))),
+             ('group-sent-is-the-group-installed', prq_sent),
+             ('group-selected-by-size-rule', prq_selected)],
+    always=[('REQUEST-on-a-client-or-repeated-is-fatal-and-inert', lambda c: z3.Implies(
+        z3.Or(conn_is_client(c), c.old('_p') != 0),
+        z3.And(z3.BoolVal(c.raised == 'ProtocolError' and not c.calls('send_packet')), gex_unchanged(c))))],
+    raises={'ProtocolError': True, 'PacketDecodeError': lambda c: z3.BoolVal(not c.calls('send_packet'))})
+process_request.no_replay = True
+
+
+def sr_post(c):
+    """REQUEST: what is recorded for the hash is exactly the min||n||max (or old-style n) bytes sent"""
+    sp = c.calls('send_packet')
+    if len(sp) != 1:
+        return z3.BoolVal(False)
+    return z3.And(sp[0]['args'][1].z == c.new('_gex_data'), z3.Or(sp[0]['args'][0].z == 30, sp[0]['args'][0].z == 34))
+
+
+send_request = Spec(
+    'C03', 'kex_dh', '_KexDHGex._send_request', self_class='_KexDHGex',
+    classes=dict(KEX_CLASSES, _KexDHGex=dict(KEX_FIELDS, _pref_size='opt[int]', _max_size='opt[int]',
+                                             _request_type='int')),
+    stubs={'self.send_packet': noop('send_packet')},
+    requires=lambda c: c.old('_request_type') == 34,
+    ensures=[('hash-input==request-bytes-sent', sr_post)],
+    raises={'OverflowError': lambda c: z3.BoolVal(not c.calls('send_packet'))})
+
+
+def _parse_key_spec(meth, fld):
+    """e / f are accepted only when a group is installed, and are the mpint carried by the packet"""
+    def from_packet(c):
+        p0 = pkt(c)
+        P, i = p0['_packet'].z, p0['_idx'].z
+        ln = unbe(z3.Extract(P, i, 4))
+        return z3.And(c.old('_p') != 0, c.new(fld) == _sunbe(z3.Extract(P, i + 4, ln)),
+                      pkt(c, new=True)['_idx'].z == i + 4 + ln)
+    sp = Spec('C03', 'kex_dh', f'_KexDHBase.{meth}', self_class='_KexDHBase', params=dict(packet='obj:SSHPacket'),
+              classes=KEXP_CLASSES, truthy=PACKET_TRUTHY, inline=GEX_INLINE,
+              requires=lambda c: z3.And(pkt(c)['_idx'].z >= 0, pkt(c)['_len'].z == z3.Length(pkt(c)['_packet'].z)),
+              ensures=[('value-from-packet', from_packet)],
+              always=[('p,g,gex_data-unchanged', gex_unchanged)],
+              raises={'ProtocolError': lambda c: z3.And(c.old('_p') == 0, c.new(fld) == c.old(fld)),
+                      'PacketDecodeError': lambda c: c.new(fld) == c.old(fld)})
+    sp.no_replay = True
+    return sp
+
+
+parse_client_key = _parse_key_spec('_parse_client_key', '_e')
+parse_server_key = _parse_key_spec('_parse_server_key', '_f')
+
+perform_init = Spec(
+    'C03', 'kex_dh', '_KexDHBase._perform_init', self_class='_KexDHBase', classes=KEX_CLASSES,
+    stubs={'DH': dh_new, 'self._dh.get_public': ret('int', 'dh_public'), 'self._send_init': noop('send_init')},
+    ensures=[('group-is-the-negotiated-one', lambda c: z3.And(
+        z3.BoolVal(len(c.events('DH')) == 1), c.events('DH')[0][1][0].z == c.old('_g'),
+        c.events('DH')[0][1][1].z == c.old('_p'))),
+        ('e-is-our-public-value-and-is-sent', lambda c: z3.And(
+            c.new('_e') == c.calls('get_public')[0]['ret'].z, z3.BoolVal(len(c.events('send_init')) == 1)))],
+    always=[('p,g,gex_data-unchanged', gex_unchanged)])
+perform_init.no_replay = True
+
+
+# ===================================================================== kex_rsa.py (RFC 4432): same two obligations
+RSA_FIELDS = {'_conn': 'obj:Conn', '_host_key_data': 'bytes', '_trans_key_data': 'bytes', '_encrypted_k': 'bytes',
+              '_k': 'int'}
+RSA_CLASSES = dict(PACKET_CLASSES, _KexRSA=RSA_FIELDS, Conn={'_is_client': 'bool'}, Hash={'ghost_acc': 'bytes'},
+                   Key={'public_data': 'bytes'})
+
+rsa_compute_hash = Spec(
+    'C03', 'kex_rsa', '_KexRSA._compute_hash', self_class='_KexRSA', classes=RSA_CLASSES,
+    stubs={'self._hash_alg': hash_new, 'Hash.update': hash_update, 'Hash.digest': hash_digest,
+           'self._conn.get_hash_prefix': ret('bytes', 'hash_prefix'), 'MPInt': mpint_stub},
+    ensures=[('H==hash(prefix||String(K_S)||String(K_T)||String(enc_K)||mpint(K))', lambda c: c.result == _hashfn(
+        z3.Concat(c.calls('get_hash_prefix')[0]['ret'].z, ssh_string_z(c.old('_host_key_data')),
+                  ssh_string_z(c.old('_trans_key_data')), ssh_string_z(c.old('_encrypted_k')),
+                  _mpint(c.old('_k')))))],
+    modifies=[], returns='bytes')
+rsa_compute_hash.no_replay = True
+
+
+def rsa_newkeys_after_verify(cx):
+    k, h = cx.args[0].z, cx.args[1].z
+    ver = _prior(cx, 'host_key.verify')
+    hs = _prior(cx, '_compute_hash')
+    val = _prior(cx, 'validate_server_host_key')
+    ok = z3.BoolVal(False)
+    if len(ver) == 1 and len(hs) == 1 and len(val) == 1 and isinstance(ver[0]['recv'], VRef) \
+            and isinstance(val[0]['ret'], VRef):
+        sig = cx.st.env['sig'].z
+        ok = z3.And(z3.BoolVal(ver[0]['recv'].addr == val[0]['ret'].addr),       # the VALIDATED key verified it
+                    val[0]['args'][0].z == cx.selff('_host_key_data').z,         # ... the blob that is hashed
+                    cx.ex.truthy(cx.st, ver[0]['ret']), ver[0]['args'][0].z == h, ver[0]['args'][1].z == sig,
+                    hs[0]['ret'].z == h, k == _mpint(cx.selff('_k').z))
+    cx.require('signature-over-this-H-verified-first', ok)
+    return [Out(event=('send_newkeys', tuple(cx.args)))]
+
+
+rsa_newkeys_after_verify.modifies = ()
+
+rsa_process_done = Spec(
+    'C03', 'kex_rsa', '_KexRSA._process_done', self_class='_KexRSA', params=KEXP_PARAMS, classes=RSA_CLASSES,
+    truthy=PACKET_TRUTHY, inline=dict(PACKET_INLINE),
+    requires=lambda c: pkt_wf(c),
+    stubs=dict(CONN_ROLE_STUBS, **{
+        '*.validate_server_host_key': may_raise(ret('obj:Key', 'validated_key'), 'HostKeyNotVerifiable',
+                                                'KeyImportError'),
+        'self._compute_hash': ret('bytes', 'H'), 'host_key.verify': ret('bool', 'sig_ok'), 'MPInt': mpint_stub,
+        'self._conn.send_newkeys': rsa_newkeys_after_verify}),
+    ensures=[('only-a-client-accepts-DONE', conn_is_client),
+             ('newkeys-exactly-once', lambda c: z3.BoolVal(len(c.events('send_newkeys')) == 1))],
+    always=[('DONE-on-a-server-is-fatal-and-inert', lambda c: z3.Implies(z3.Not(conn_is_client(c)), z3.And(
+        z3.BoolVal(c.raised == 'ProtocolError'),
+        nothing_happened(c, 'validate_server_host_key', '_compute_hash', 'send_newkeys')))),
+        ('no-newkeys-on-failure', lambda c: z3.BoolVal(c.raised is None or not c.events('send_newkeys')))],
+    raises={'ProtocolError': True, 'PacketDecodeError': True, 'KeyExchangeFailed': True,
+            'HostKeyNotVerifiable': True, 'KeyImportError': True},
+    modifies=[])
+rsa_process_done.no_replay = True
